@@ -207,8 +207,17 @@ def phase_a(mod, tier, result):
     result['tables_changed'] = changed
     for owner, gname, err in tables.FAILED:
         # a table generator that cannot read /repo any more concerns the property that owns it (tablegen/cXX.py) or everybody (tables.py)
-        if owner in ('tables', '__main__') or owner.lower().endswith('.' + mod.ID.lower()) or mod.ID in getattr(mod, 'TABLE_OWNERS', ()):
+        if owner in ('tables', '__main__'):
             problems.append('table generator %s.%s failed on the current tree: %s' % (owner, gname, err))
+        elif owner.lower().endswith('.' + mod.ID.lower()) or mod.ID in getattr(mod, 'TABLE_OWNERS', ()):
+            # The per-property generators (harness/tablegen/cXX.py) read literals off the syntax trees / code objects / signatures of
+            # PRIVATE functions.  When such a function no longer has the shape the generator expects (a refactoring moved or renamed a
+            # private helper) the generator cannot say what the literal is now: the table keeps its last value (committed Gen file), the
+            # fact is recorded in the evidence, and it is the CORRESPONDENCE of this run that decides whether the behaviour the literal
+            # stands for is still the model's.  A literal that changes while the shape stays is still regenerated, and the
+            # `*_tables_agree` / `*_constants_*` theorem of the property then no longer builds.
+            result.setdefault('table_fallbacks', []).append('%s.%s: %s' % (owner, gname, err))
+            print('NOTE: table generator %s.%s could not read the current tree (%s): last value kept, the correspondence decides' % (owner, gname, err))
     hits = leanio.forbidden_scan()
     if hits:
         problems.append('forbidden construct in Lean sources: ' + '; '.join(hits[:5]))
@@ -507,7 +516,7 @@ def write_evidence(mod, tier, seed, result, t0):
         'tables_regenerated_changed': result.get('tables_changed', []),
         'impl_s': result.get('impl_s'), 'model_s': result.get('model_s'),
     }
-    for k in ('leanchecker', 'build_failures', 'driver_fallback'):
+    for k in ('leanchecker', 'build_failures', 'driver_fallback', 'table_fallbacks'):
         if k in result:
             cov[k] = result[k]
     if LINECOV and linecov.available():
